@@ -19,7 +19,7 @@
 From Coupe Require Import Lib.Prelude Lib.SFloat Lib.Report Model.KMeansAbs Run.RunC02 Proofs.C02Proofs.
 From Coupe Require Proofs.C02Collect.
 From Coupe Require Import Lib.Rayon Model.KMeans Gen.KMeansGen Proofs.KMeansProofs Proofs.KMeansNoPanic Proofs.KMeansCollect.
-From Coupe Require Proofs.KMeansVec.
+From Coupe Require Proofs.KMeansVec Proofs.KMeansTrace.
 From Coq Require Import Floats.SpecFloat.
 From Coupe Require Properties.C07 Properties.C15.
 From Coupe Require Lib.Graph Model.Vn Model.Fm Proofs.FmProofs Model.Kl Model.ArcSwap Proofs.ArcSwapTerm.
@@ -317,6 +317,14 @@ Theorem C02_kmeans_bbox_faithful : forall A t D xs, Forall (fun v => length v = 
   tree_bbox A t D xs = KMeansVec.tree_bbox_vec A t D xs.
 Proof. exact KMeansVec.tree_bbox_is_vector_fold. Qed.
 Print Assumptions C02_kmeans_bbox_faithful.
+
+(* the traced run the correspondence evaluates (assignments after every outer
+   iteration, compared with implementation runs of smaller max_iter) ends with
+   the result of the model proper *)
+Theorem C02_kmeans_trace_final : forall A R rot D cfg points weights part,
+  final_of_trace part (kmeans_trace A R rot D cfg points weights part) = kmeans A R rot D cfg points weights part.
+Proof. exact KMeansTrace.kmeans_trace_final. Qed.
+Print Assumptions C02_kmeans_trace_final.
 
 (* the source still has the shape the model mirrors (26 fragments / operators) *)
 Theorem C02_kmeans_source_shape : forallb (fun b => b) km_source_shape = true.
